@@ -206,14 +206,30 @@ func fmod(t *rt.Thread, c *rt.GoCont) (rt.Cont, error) {
 	if err := c.CheckNArgs(2); err != nil {
 		return nil, err
 	}
-	x, _ := rt.ToNumberValue(c.Arg(0))
-	y, _ := rt.ToNumberValue(c.Arg(1))
-	res, ok, err := rt.Mod(x, y)
-	if !ok {
-		err = errors.New("expected numeric arguments")
+	x, tx := rt.ToNumberValue(c.Arg(0))
+	y, ty := rt.ToNumberValue(c.Arg(1))
+	if tx == rt.NaN || ty == rt.NaN {
+		return nil, errors.New("expected numeric arguments")
 	}
-	if err != nil {
-		return nil, err
+	// fmod is the remainder of the division that rounds the quotient towards
+	// zero (C's fmod), unlike the % operator which rounds it towards minus
+	// infinity.
+	var res rt.Value
+	if tx == rt.IsInt && ty == rt.IsInt {
+		n, d := x.AsInt(), y.AsInt()
+		switch d {
+		case 0:
+			return nil, errors.New("attempt to perform 'n%0'")
+		case -1:
+			// Avoid overflow for mininteger % -1
+			res = rt.IntValue(0)
+		default:
+			res = rt.IntValue(n % d)
+		}
+	} else {
+		fx, _ := rt.ToFloat(x)
+		fy, _ := rt.ToFloat(y)
+		res = rt.FloatValue(math.Mod(fx, fy))
 	}
 	return c.PushingNext1(t.Runtime, res), nil
 }
